@@ -25,3 +25,34 @@ pub fn not_ts() -> String {
   st.pretty_print_internal(heap, &table, &HashMap::new(), 0, &None, &mut s);
   s
 }
+
+/// `let r = a <op> <data-free variant 0>` with `a` of pointer type: how the TypeScript back end tests an enum value
+/// against a data-free variant (EQ / NE only).
+pub fn ref_cmp_ts(op: BinaryOperator) -> String {
+  let heap = &mut Heap::new();
+  let table = SymbolTable::new();
+  let st = Statement::Binary {
+    name: PStr::LOWER_R,
+    operator: op,
+    e1: Expression::Variable(PStr::LOWER_A, Type::AnyPointer),
+    e2: Expression::Int31Literal(0),
+  };
+  let mut s = String::new();
+  st.pretty_print_internal(heap, &table, &HashMap::new(), 0, &None, &mut s);
+  s
+}
+
+/// the same for two values of pointer type
+pub fn ref_cmp_vars_ts(op: BinaryOperator) -> String {
+  let heap = &mut Heap::new();
+  let table = SymbolTable::new();
+  let st = Statement::Binary {
+    name: PStr::LOWER_R,
+    operator: op,
+    e1: Expression::Variable(PStr::LOWER_A, Type::AnyPointer),
+    e2: Expression::Variable(PStr::LOWER_B, Type::AnyPointer),
+  };
+  let mut s = String::new();
+  st.pretty_print_internal(heap, &table, &HashMap::new(), 0, &None, &mut s);
+  s
+}
